@@ -308,10 +308,17 @@ def features(prog, clauses):
             sub = []
             _walk_exprs(e["s"], sub)
             for s in sub:
-                if s["k"] == "bin" and s["op"] == "/":
-                    feats["div_or_mod_subscript"] = True
-                if s["k"] == "call" and s["f"] == "mod":
-                    feats["div_or_mod_subscript"] = True
+                # (KF-C08-2/KF-C09-2 are about dividing the *loop
+                # variable*; a division of a loop-invariant scalar is a
+                # different matter and must not be absorbed by them)
+                if (s["k"] == "bin" and s["op"] == "/") or \
+                        (s["k"] == "call" and s["f"] == "mod"):
+                    inner = []
+                    _walk_exprs([s.get("a"), s.get("b")]
+                                if s["k"] == "bin" else s["a"], inner)
+                    if any(x["k"] == "ref" and x["n"] in fgen.LOOP_VARS
+                           for x in inner):
+                        feats["div_or_mod_subscript"] = True
                 if s["k"] == "aref" and s["n"] in fgen.INT_ARRAYS:
                     feats["idx_subscript"] = True
                 if s["k"] == "ref" and s["n"] in fgen.INT_SCALARS:
